@@ -18,7 +18,7 @@ Tok = collections.namedtuple("Tok", "kind text")
 
 
 class Lexed:
-    __slots__ = ("toks", "comments", "ok", "literal_spans", "comment_spans")
+    __slots__ = ("toks", "comments", "ok", "literal_spans", "comment_spans", "starts")
 
     def __init__(self):
         self.toks = []
@@ -26,6 +26,7 @@ class Lexed:
         self.ok = True
         self.literal_spans = []      # (start, end) byte offsets of string/char/header literals
         self.comment_spans = []      # (start, end) byte offsets of comments
+        self.starts = []             # byte offset at which each element of toks starts (parallel to toks)
 
 
 P3 = ["<<=", ">>=", "...", "->*", "<=>"]
@@ -55,6 +56,18 @@ def _idchar(c):
     return c.isalnum() or c == "_" or c == "$" or ord(c) >= 0x80
 
 
+class _TokList(list):
+    """list of Tok that also records, for each appended token, the scanner offset of its start"""
+    def __init__(self, owner):
+        list.__init__(self)
+        self.owner = owner
+        self.cur = 0
+
+    def append(self, t):
+        list.append(self, t)
+        self.owner.starts.append(self.cur)
+
+
 def lex(data, lang="C", digraphs=False):
     s = data.decode("latin-1") if isinstance(data, bytes) else data
     n = len(s)
@@ -62,7 +75,8 @@ def lex(data, lang="C", digraphs=False):
     objc = lang in ("OC", "OC+")
     java = lang == "JAVA"
     out = Lexed()
-    toks = out.toks
+    toks = _TokList(out)
+    out.toks = toks
     i = 0
     line_start = True       # no token yet on this logical line
     in_dir = False
@@ -125,6 +139,7 @@ def lex(data, lang="C", digraphs=False):
                 i = e
                 continue
         start = i
+        toks.cur = i
         # directive start
         if line_start and not java and (c == "#" or (digraphs and s.startswith("%:", i))):
             in_dir = True
